@@ -23,7 +23,10 @@ func init() {
 			"both from the command line and through deps / task: entries, so that top-level callers wait for indirectly started executions and vice versa) rendered to a Taskfile and run " +
 			"in-process through Executor.Setup/Run with --concurrency 0..3, --parallel, --force, --force-all, --yes; the schedule is perturbed by seeded random " +
 			"delays at every instrumentation point; the event log is replayed by the Lean LTS. non-trivial = the run had at least two activations " +
-			"alive at once or took a dedup / guard / failure / defer branch; distinct by (program, flags, event order)"}
+			"alive at once or took a dedup / guard / failure / defer branch; distinct by (program, flags, event order). A stream of reference cycles through " +
+			"deduplicated tasks (a ring with run: once / when_changed members; such a ring entered by several top-level calls under --parallel; a deferred " +
+			"task: call back into the running execution) must end — with the 'called too many times' class (204, or 201 wrapping it) where the cycle is " +
+			"not behind a defer — and log the refused wait (waitCycle)"}
 }
 
 // ---- abstract program (mirrors TaskModel.Sched.TaskDef)
@@ -70,8 +73,11 @@ type schedCase struct {
 	// Barrier > 0: every shell command writes to a stdout that blocks until Barrier activations have
 	// entered (work-conservation probe: dependencies must all be started although only `cap` can run)
 	Barrier int `json:"barrier,omitempty"`
-	// Hang: a cycle through a deduplicated task — expected to deadlock (open finding); short time-out
+	// Hang: a reference cycle through a deduplicated task (before the fix of C07-once-cycle-deadlocks the
+	// executor hung on these): short time-out, the refused wait must be in the log
 	Hang bool `json:"hang,omitempty"`
+	// Want204: with Hang — the cycle is not behind a defer: the run must end with 204 or 201 wrapping 204
+	Want204 bool `json:"want204,omitempty"`
 }
 
 type gateWriter struct {
@@ -223,10 +229,10 @@ func progTokens(d schedCase) string {
 }
 
 type schedObs struct {
-	events []verifhook.Event
-	result string
-	hang   bool
-	stall  bool
+	events   []verifhook.Event
+	result   string
+	hang     bool
+	stall    bool
 	setupErr string
 }
 
@@ -344,7 +350,7 @@ func traceTokens(o schedObs) (string, int, map[string]int) {
 			} else {
 				fmt.Fprintf(&b, " enter %s %s %s %d", kind, parent, idx, taskIndex(name))
 			}
-		case "register", "waiter":
+		case "register", "waiter", "waitCycle":
 			k, ok := keys[ev.Args[0]]
 			if !ok {
 				k = len(keys)
@@ -426,6 +432,21 @@ func evalSched(d schedCase) (string, string, schedObs) {
 	}
 	if o.stall {
 		return line, "stall: not every dependency was started while a concurrency slot was free or held by a blocked command", o
+	}
+	if d.Hang {
+		// a reference cycle through a deduplicated task is cut by the wait-for check, not by the call counter
+		cut := false
+		for _, e := range o.events {
+			if e.Kind == "waitCycle" {
+				cut = true
+			}
+		}
+		if !cut {
+			return line, "dedup-cycle: no refused wait (waitCycle) in the log, result " + o.result, o
+		}
+		if d.Want204 && o.result != "t204" && o.result != "r:t204" {
+			return line, "dedup-cycle: ended with " + o.result + ", not with the called-too-many-times class", o
+		}
 	}
 	return line, schedAccept, o
 }
@@ -565,9 +586,85 @@ func (c *Ctx) genCycle(dedup bool) schedCase {
 		d.Tasks = append(d.Tasks, t)
 	}
 	if dedup {
-		d.Tasks[r.Intn(k)].Run = []string{"once", "when_changed"}[r.Intn(2)]
+		// at least one deduplicated task on the ring, each of the others with probability 1/2
+		must := r.Intn(k)
+		for i := range d.Tasks {
+			if i == must || r.Intn(2) == 0 {
+				d.Tasks[i].Run = []string{"once", "when_changed"}[r.Intn(2)]
+			}
+		}
+		d.Hang, d.Want204 = true, true
 	}
 	return d
+}
+
+// genDedupCycle: the shapes of a reference cycle through deduplicated tasks.
+//
+//	ring:     genCycle(true), one call
+//	tops:     a ring of 2..3 tasks, all deduplicated, entered by 2..3 top-level calls under --parallel: the
+//	          executions wait for one another through waiter edges and registration edges, in an order the
+//	          schedule decides; exactly the waits that would close a cycle are refused
+//	deferred: a deduplicated task whose defer: calls it again, directly or through a run: always task
+//	          (runDeferred keeps the values of the task's context, so the deferred call knows its execution);
+//	          the deferred call fails with 204, which a defer discards: the task's own result stands
+func (c *Ctx) genDedupCycle(shape int) (schedCase, string) {
+	r := c.Rng
+	mk := func() sTask {
+		return sTask{Run: "always", PlatformOk: true, RequiresOk: true, EnumOk: true, PrecondOk: true}
+	}
+	switch shape {
+	case 1:
+		k := 2 + r.Intn(2)
+		d := schedCase{Cap: []int{0, 0, 1, 2, 3}[r.Intn(5)], Jitter: []int64{0, 50, 300, 1000}[r.Intn(4)], Seed: r.Int63(), Parallel: true,
+			Hang: true, Want204: true}
+		for i := 0; i < k; i++ {
+			t := mk()
+			t.Run = []string{"once", "once", "when_changed"}[r.Intn(3)]
+			next := (i + 1) % k
+			if r.Intn(2) == 0 {
+				t.Deps = []sDep{{next, -1}}
+				if r.Intn(2) == 0 {
+					t.Cmds = append(t.Cmds, sCmd{Call: -1, Var: -1})
+				}
+			} else {
+				if r.Intn(2) == 0 {
+					t.Cmds = append(t.Cmds, sCmd{Call: -1, Var: -1})
+				}
+				t.Cmds = append(t.Cmds, sCmd{Call: next, Var: -1})
+			}
+			d.Tasks = append(d.Tasks, t)
+		}
+		perm := r.Perm(k)
+		d.Calls = perm[:2+r.Intn(k-1)]
+		return d, "parallel-tops"
+	case 2:
+		d := schedCase{Cap: []int{0, 1, 2}[r.Intn(3)], Seed: r.Int63(), Calls: []int{0}, Hang: true}
+		t0 := mk()
+		t0.Run = []string{"once", "when_changed"}[r.Intn(2)]
+		if r.Intn(2) == 0 {
+			t0.Cmds = append(t0.Cmds, sCmd{Call: -1, Var: -1})
+		}
+		if r.Intn(2) == 0 {
+			// defer: {task: t0}
+			t0.Cmds = append(t0.Cmds, sCmd{Call: 0, Var: -1, Deferred: true})
+			d.Tasks = []sTask{t0}
+		} else {
+			// defer: {task: t1}; t1 (run: always) reaches t0 again through a task: command or a dependency
+			t0.Cmds = append(t0.Cmds, sCmd{Call: 1, Var: -1, Deferred: true})
+			t1 := mk()
+			if r.Intn(2) == 0 {
+				t1.Cmds = []sCmd{{Call: 0, Var: -1}}
+			} else {
+				t1.Deps = []sDep{{0, -1}}
+			}
+			d.Tasks = []sTask{t0, t1}
+		}
+		if r.Intn(2) == 0 {
+			d.Tasks[0].Cmds = append(d.Tasks[0].Cmds, sCmd{Call: -1, Var: -1, Code: []int{0, 0, 3}[r.Intn(3)]})
+		}
+		return d, "deferred"
+	}
+	return c.genCycle(true), "ring"
 }
 
 // genBarrier: t0 has k deps, each with one command that blocks until all k+1 activations have
@@ -913,16 +1010,32 @@ func runSched(c *Ctx) {
 			break
 		}
 	}
-	// cycles through a run: once / when_changed task: the reference waits for its own ancestor
-	if os.Getenv("VERIF_SCHED_HANG") == "1" {
-		for i := 0; i < c.Pick(2, 8); i++ {
-			d := c.genCycle(true)
-			d.Hang = true
-			cl, il, _ := evalSched(d)
-			c.Hit("stream:dedup-cycle")
-			c.Hit("result:" + il)
-			c.Emit(cl, il, d)
+	// reference cycles through run: once / when_changed tasks: the wait that would close the cycle is refused
+	for i := 0; i < c.Pick(9, 60) && hangs < 3; i++ {
+		d, shape := c.genDedupCycle(i % 3)
+		cl, il, o := evalSched(d)
+		if o.hang {
+			hangs++
 		}
+		evTotal += len(o.events)
+		c.Hit("stream:dedup-cycle:" + shape)
+		c.Hit("dedup-cycle:result:" + o.result)
+		nCut := 0
+		kinds := map[string]bool{}
+		for _, e := range o.events {
+			if e.Kind == "waitCycle" {
+				nCut++
+			}
+			kinds[e.Kind] = true
+		}
+		for k := range kinds {
+			c.Hit("ev:" + k)
+		}
+		if nCut > 1 {
+			c.Hit("dedup-cycle:several-refused-waits")
+		}
+		c.Distinct(schedKey(d, o))
+		c.Emit(cl, il, d)
 	}
 	c.Extra["events_total"] = evTotal
 	ks := make([]string, 0)
